@@ -963,4 +963,113 @@ theorem mem_slotDefsOf {s : State} {sd : SlotDef} {a : Name} {d : ClassDef}
     · left; simp [hd, hsd]
     · right; exact mem_slotDefsOf hd hsd h
 
+/-! ## `dedup` is slip's loop "append unless already on the list" -/
+
+/-- the loop of mergeSupers: walk the candidates, append those not yet inherited -/
+def appendNew (acc : List Name) (l : List Name) : List Name :=
+  l.foldl (fun acc x => if x ∈ acc then acc else acc ++ [x]) acc
+
+theorem dedup_filter (p : Name → Bool) : ∀ (l : List Name), dedup (l.filter p) = (dedup l).filter p
+  | [] => rfl
+  | x :: xs => by
+    have ih := dedup_filter p xs
+    by_cases hx : p x = true
+    · simp only [List.filter_cons, hx, if_true, dedup, ih]
+      congr 1
+      rw [List.filter_filter, List.filter_filter]
+      apply List.filter_congr
+      intro y _
+      exact Bool.and_comm _ _
+    · have hx' : p x = false := by simpa using hx
+      simp only [List.filter_cons, hx', Bool.false_eq_true, if_false, dedup]
+      rw [ih, List.filter_filter]
+      apply List.filter_congr
+      intro y _
+      by_cases hyx : y = x
+      · subst hyx; simp [hx']
+      · simp [hyx]
+
+theorem appendNew_eq : ∀ (l acc : List Name),
+    appendNew acc l = acc ++ dedup (l.filter (fun y => !(acc.contains y)))
+  | [], acc => by simp [appendNew, dedup]
+  | x :: xs, acc => by
+    unfold appendNew
+    simp only [List.foldl_cons]
+    by_cases hx : x ∈ acc
+    · have := appendNew_eq xs acc
+      unfold appendNew at this
+      simp [hx, this]
+    · have := appendNew_eq xs (acc ++ [x])
+      unfold appendNew at this
+      simp only [hx, if_false, this]
+      have hc : (acc.contains x) = false := by simpa using hx
+      simp only [List.filter_cons, hc, Bool.not_false, if_true, dedup, List.append_assoc,
+        List.singleton_append]
+      congr 2
+      rw [← dedup_filter]
+      congr 1
+      rw [List.filter_filter]
+      apply List.filter_congr
+      intro y _
+      by_cases hy : y = x
+      · subst hy; simp
+      · simp [hy]
+
+/-- the recursive `dedup` of the model is the accumulating loop of the code started empty -/
+theorem dedup_eq_appendNew (l : List Name) : dedup l = appendNew [] l := by
+  rw [appendNew_eq]
+  have : l.filter (fun y => !(([] : List Name).contains y)) = l := List.filter_eq_self.2 (by simp)
+  rw [this]; simp
+
+/-! ## the order of the supplied initargs does not matter unless two of them reach one slot -/
+
+theorem find?_unique {α : Type} (p : α → Bool) : ∀ (l : List α) (a : α),
+    (∀ x ∈ l, ∀ y ∈ l, p x = true → p y = true → x = y) →
+    (l.find? p = some a ↔ a ∈ l ∧ p a = true)
+  | [], a, _ => by simp
+  | z :: zs, a, hu => by
+    have ih := find?_unique p zs a (fun x hx y hy => hu x (List.mem_cons_of_mem _ hx) y (List.mem_cons_of_mem _ hy))
+    by_cases hz : p z = true
+    · simp only [List.find?_cons, hz, Option.some.injEq, List.mem_cons]
+      constructor
+      · intro e; subst e; exact ⟨Or.inl rfl, hz⟩
+      · rintro ⟨ha | ha, hpa⟩
+        · exact ha.symm
+        · exact hu z (by simp) a (List.mem_cons_of_mem _ ha) hz hpa
+    · have hz' : p z = false := by simpa using hz
+      simp only [List.find?_cons, hz', List.mem_cons]
+      rw [ih]
+      constructor
+      · rintro ⟨h1, h2⟩; exact ⟨Or.inr h1, h2⟩
+      · rintro ⟨h1 | h1, h2⟩
+        · subst h1; rw [hz'] at h2; cases h2
+        · exact ⟨h1, h2⟩
+
+/-- `args` reach slot `x` through at most one supplied pair -/
+def Unambiguous (sds : List SlotDef) (args : List (Name × Val)) (x : Name) : Prop :=
+  ∀ a ∈ args, ∀ b ∈ args, a.1 ∈ initargsFor sds x → b.1 ∈ initargsFor sds x → a = b
+
+theorem valueSpec_perm {sds : List SlotDef} {args1 args2 : List (Name × Val)} {x : Name}
+    (hp : args1.Perm args2) (hu : Unambiguous sds args1 x) :
+    valueSpec sds args1 x = valueSpec sds args2 x := by
+  have hu1 : ∀ a ∈ args1, ∀ b ∈ args1,
+      (initargsFor sds x).contains a.1 = true → (initargsFor sds x).contains b.1 = true → a = b := by
+    intro a ha b hb h1 h2
+    exact hu a ha b hb (by simpa using h1) (by simpa using h2)
+  have hu2 : ∀ a ∈ args2, ∀ b ∈ args2,
+      (initargsFor sds x).contains a.1 = true → (initargsFor sds x).contains b.1 = true → a = b := by
+    intro a ha b hb h1 h2
+    exact hu1 a (hp.mem_iff.2 ha) b (hp.mem_iff.2 hb) h1 h2
+  have key : ∀ a, args1.find? (fun a => (initargsFor sds x).contains a.1) = some a ↔
+      args2.find? (fun a => (initargsFor sds x).contains a.1) = some a := by
+    intro a
+    rw [find?_unique _ args1 a hu1, find?_unique _ args2 a hu2, hp.mem_iff]
+  unfold valueSpec
+  cases e1 : args1.find? (fun a => (initargsFor sds x).contains a.1) with
+  | some a => rw [(key a).1 e1]
+  | none =>
+    cases e2 : args2.find? (fun a => (initargsFor sds x).contains a.1) with
+    | none => rfl
+    | some a => rw [(key a).2 e2] at e1; cases e1
+
 end SlipVerif.Clos
